@@ -15,3 +15,6 @@ CHECKS["C14"] = checks_vec.c14
 CHECKS["C15"] = checks_vec.c15
 CHECKS["C16"] = checks_vec.c16
 CHECKS["C05"] = checks_vec.c05
+CHECKS["C12"] = checks_vec.c12
+import checks_mon
+CHECKS["C18"] = checks_mon.c18
